@@ -167,7 +167,6 @@ class stripws_identifierlist:
 
 @contract('sqlparse.filters.others.SpacesAroundOperatorsFilter._process')
 class spaces_process:
-    tier = 'thorough'        # ~1 min of VC generation (two neighbour searches and two insertions per iteration)
     exec_class = HeapExec
     params = {'tlist': make_group}
     sites = LAYOUT_SITES
